@@ -9,6 +9,7 @@ from vf import canon as C
 from vf import dagedit, gen
 from vf.common import safe_repr
 from vt import kinds
+from vt import tags as vtags
 from vt.rec import Sentinel
 
 ID = 'C15'
@@ -177,6 +178,23 @@ def run_case(rng, acc):
             break
       except Exception as e:  # pylint: disable=broad-except
         acc.violation(f'set:raises:{type(e).__name__}', repr(e)[:200], witness(selector=sel_desc))
+      if len(exp_nodes) >= 2:
+        # .set(p=Tag.new(v)) on several nodes, then a tag edit on ONE of them: the others keep theirs
+        memo_t = {}
+        cfg_t = gen.to_fiddle(root, memo_t)
+        fsel.select(cfg_t, F, **kwargs).set(**{param: vtags.TagA.new('tagged-default')})
+        nodes_t = list({id(memo_t[n.uid]): memo_t[n.uid] for n in exp_nodes}.values())
+        if len(nodes_t) >= 2:
+          before_t = [frozenset(fdl.get_tags(b_, param)) for b_ in nodes_t]
+          fdl.add_tag(nodes_t[0], param, vtags.TagB)
+          fdl.remove_tag(nodes_t[0], param, vtags.TagA)
+          acc.obs('set_with_tagged_value_then_tag_edit')
+          after_t = [frozenset(fdl.get_tags(b_, param)) for b_ in nodes_t]
+          if (after_t[0] != (before_t[0] | {vtags.TagB}) - {vtags.TagA} or after_t[1:] != before_t[1:]
+              or any(vtags.TagA not in x for x in before_t)):
+            acc.violation('set:tagged-value:tag-edit-on-one-node-reaches-the-others',
+                          'tags after editing the first selected node only: '
+                          f'{[sorted(t.__name__ for t in x) for x in after_t]}', witness(selector=sel_desc))
     # ---- (c) replace ---------------------------------------------------------------
     for deep in (False, True):
       memo = {}
